@@ -10,14 +10,22 @@ from .exact import splits2, splits3
 from .lattice import eliminate_mask, offsets
 
 
-def symbolic_terms(N, orders, hermitian=True):
+def symbolic_terms(N, orders, hermitian=True, style="real-pairs"):
     terms = {}
     for o in orders:
         tag = "".join(map(str, o))
         m = sympy.zeros(N, N)
         for i in range(N):
             for j in range(N):
-                if hermitian:
+                if style == "complex" and hermitian:
+                    # plain complex symbols (no assumptions, no explicit imaginary unit) and their conjugates
+                    if i == j:
+                        m[i, j] = sympy.Symbol(f"d{tag}_{i}", real=True)
+                    elif i < j:
+                        c = sympy.Symbol(f"c{tag}_{i}{j}")
+                        m[i, j] = c
+                        m[j, i] = sympy.conjugate(c)
+                elif hermitian:
                     if i == j:
                         m[i, j] = sympy.Symbol(f"d{tag}_{i}", real=True)
                     elif i < j:
@@ -119,7 +127,7 @@ def run_symbolic(cfg, props):
     total = cfg["total"]
     orders = [(t,) for t in range(total + 1)]
     E = [sympy.Integer(e[0]) + sympy.I * sympy.Integer(e[1]) for e in cfg["E"]]
-    terms = symbolic_terms(N, [tuple(o) for o in cfg["support"]], herm)
+    terms = symbolic_terms(N, [tuple(o) for o in cfg["support"]], herm, cfg.get("symstyle", "real-pairs"))
     H = {(0,): sympy.diag(*E), **terms}
     kwargs = dict(subspace_indices=[b for b, s in enumerate(sizes) for _ in range(s)], hermitian=herm)
     if cfg.get("fd"):
